@@ -108,4 +108,25 @@ CHECKS = {
         "level_note": "sequential histories (thread interleavings are C14/C20); small limits (2 topics per sender, GCSweep 1s, GCExpire 2s/4s); the per-sender message limit is the constant 100; lazy expiry is tolerated inside a history and demanded only after the release horizon",
         "budget_s": {"quick": 170, "thorough": 900},
     },
+    "C18": {
+        "pkg": "checks/c18", "level": "exploration", "engine": "E4 bounded-exhaustive",
+        "technique": "exhaustive enumeration of (n,t) and of all subsets through the public API on real DKG outputs; per-position off-polynomial fault",
+        "level_text": "all 2 <= t <= n <= 7 (thorough 9) for BLS and n <= 4 (5) for PS; every subset of size >= t reconstructs in the exponent, every subset of size t-1 does not; a key off the polynomial is detected at every position",
+        "level_note": "polynomials are random (3 per cell): a random evaluation decides each identity up to 2^-240 (as the property states); internal helpers (chooseKoutOfN, reconstruct) are exercised only through KeyGen/Verifier",
+        "budget_s": {"quick": 170, "thorough": 900},
+    },
+    "C08": {
+        "pkg": "checks/c08", "level": "exploration", "engine": "E4 bounded-exhaustive + E1",
+        "technique": "exhaustive enumeration of (n,t) x message length x message-vector alphabet x all signer subsets through the public PS API on real DKG outputs; DKG also through the full stack under all <=1-deviation schedules",
+        "level_text": "blind / sign / unblind / prove / verify completes for every enumerated case; public material identical on all parties",
+        "level_note": "message entries from a fixed alphabet (empty, 1 byte, 0x00, 32 bytes, 1 kB); party ids 1..n (the PS prover uses the party id as evaluation point); mathlib version as selected for the harness module",
+        "budget_s": {"quick": 170, "thorough": 900},
+    },
+    "C09": {
+        "pkg": "checks/c09", "level": "exploration", "engine": "E4 bounded-exhaustive",
+        "technique": "exhaustive enumeration of a perturbation catalogue (every field x perturbation kind, every transposition/shift, every subset below t) over real signatures, requests and proofs; every verdict taken twice",
+        "level_text": "every perturbed object of the catalogue is rejected, every genuine one accepted, and repeating a verification or a signing of the same bytes / the same parsed object gives the same verdict",
+        "level_note": "algebraic perturbations are +generator / +1 / substitution (not arbitrary values); MPrime of the request is deliberately not in the catalogue (the signer recomputes it from cm, it is not bound by the proof)",
+        "budget_s": {"quick": 170, "thorough": 900},
+    },
 }
